@@ -75,6 +75,17 @@ PRED_RTOL = 1e-9
 def sel_ids(case):
     """ids of the selected events in selected-array order (= raw order)"""
     if case['selected'] is None:
+        ids = list(case['order'])
+    else:
+        s = set(case['selected'])
+        ids = [i for i in case['order'] if i in s]
+    if case.get('index_field'):
+        ids = sorted(ids)                 # initialize_trial sorts the selected events by the index field
+    return ids
+
+
+def sel_ids_unsorted(case):
+    if case['selected'] is None:
         return list(case['order'])
     s = set(case['selected'])
     return [i for i in case['order'] if i in s]
@@ -297,8 +308,8 @@ class World:
         self.case = case
         self.caching = caching
         self.dataset_idx = dataset_idx
-        (self.shg_mgr, self.pmm) = self.source_world(case['K'])
-        self.tdm = TrialDataManager()
+        (self.shg_mgr, self.pmm) = self.make_sources(case)
+        self.tdm = self.make_tdm(case)
         self.weights = weights
         self.own_weights = weights is None
         self._init_trial(case)
@@ -306,6 +317,21 @@ class World:
         self.llh = ZeroSigH0SingleDatasetTCLLHRatio(pmm=self.pmm, minimizer=st.minimizer, shg_mgr=self.shg_mgr,
                                                     tdm=self.tdm, pdfratio=self.ratio, cfg=st.cfg)
         self.llh.initialize_for_new_trial()
+
+    def make_sources(self, case):
+        return self.source_world(case['K'])
+
+    def make_tdm(self, case):
+        from skyllh.core.trialdata import TrialDataManager
+        # an index field makes initialize_trial sort the selected events and re-map the event indices
+        return TrialDataManager(index_field_name='id' if case.get('index_field') else None)
+
+    def make_sig_pdf(self, fi, f):
+        st = self.static()
+        return st.SigPDF(f['S'], cfg=st.cfg)
+
+    def fp(self, ns):
+        return np.array([ns], dtype=np.float64)
 
     def _init_trial(self, case):
         from skyllh.core.storage import DataFieldRecordArray
@@ -315,7 +341,11 @@ class World:
         if case['selected'] is not None:
             s = set(case['selected'])
             keep = [p for p, i in enumerate(case['order']) if i in s]
-            src, evt = pair_rows(case)
+            upos = {}
+            for p_, i in enumerate(sel_ids_unsorted(case)):
+                upos.setdefault(i, p_)
+            src = [k for k, _ in case['pairs']]
+            evt = [upos[i] for _, i in case['pairs']]
             sel = World.Sel(keep, src, evt)
         # n_events=None makes the TrialDataManager take N from the raw event array
         n_events = None if (case.get('implicit_N') and case['N'] == len(case['order'])) else case['N']
@@ -326,8 +356,8 @@ class World:
         st = self.static()
         self.sig_pdfs, self.bkg_pdfs, self.cachers = [], [], []
         ratio = None
-        for f in case['factors']:
-            sp, bp = st.SigPDF(f['S'], cfg=st.cfg), st.BkgPDF(f['B'], cfg=st.cfg)
+        for fi, f in enumerate(case['factors']):
+            sp, bp = self.make_sig_pdf(fi, f), st.BkgPDF(f['B'], cfg=st.cfg)
             self.sig_pdfs.append(sp)
             self.bkg_pdfs.append(bp)
             r = SigOverBkgPDFRatio(sp, bp, cfg=st.cfg, zero_bkg_ratio_value=f['z'])
@@ -378,13 +408,13 @@ class World:
     def value(self, ns):
         with np.errstate(all='ignore'), warnings.catch_warnings():
             warnings.simplefilter('ignore')
-            (v, g) = self.llh.evaluate(np.array([ns], dtype=np.float64))
+            (v, g) = self.llh.evaluate(self.fp(ns))
         return float(v)
 
     def ratios(self):
         with np.errstate(all='ignore'), warnings.catch_warnings():
             warnings.simplefilter('ignore')
-            rec = self.pmm.create_src_params_recarray(gflp_values=np.array([1.0]))
+            rec = self.pmm.create_src_params_recarray(gflp_values=self.fp(1.0))
             return [float(x) for x in self.ratio.get_ratio(tdm=self.tdm, src_params_recarray=rec)]
 
 
